@@ -539,6 +539,19 @@ pub fn shuffle_names(m: &mut Model, rng: &mut Rng) {
     if rng.chance(0.15) && concat_twin_names(m, rng) {
         return;
     }
+    if rng.chance(0.05) {
+        // very long names that share a long prefix and differ only at the very end (keys cut to a fixed
+        // width, hashes of prefixes, column arithmetic in the emitted text)
+        let k = *rng.pick(&[31usize, 63, 64, 127, 255, 256, 300, 1000]);
+        let prefix = format!("L{}", rng.pick_str(&["o", "x", "_", "9"]).repeat(k));
+        for (i, nt) in m.nts.iter_mut().enumerate() {
+            nt.name = format!("{prefix}N{i}");
+        }
+        for (i, t) in m.terms.iter_mut().enumerate() {
+            t.name = format!("{prefix}T{i}");
+        }
+        return;
+    }
     let which = rng.below(100);
     let confusable = which < 50;
     let POOL: &[&str] = if which < 26 {
